@@ -29,6 +29,7 @@ type Cell struct {
 	Name string
 	Typ  types.Type // element type
 	id   int
+	blk  *ssa.BasicBlock // block of the allocation (scoping of names in contracts)
 }
 
 type Loc struct {
@@ -51,6 +52,7 @@ type Val struct {
 	Tup []Val
 	Typ types.Type
 	NonNil bool // known non-nil reference (fresh allocation)
+	Boxed  *Val // interface value made from this concrete value (MakeInterface)
 	// closure bookkeeping (MakeClosure)
 	Fn       *ssa.Function
 	Bindings []Val
@@ -154,6 +156,8 @@ type Unit struct {
 	regions  map[string]Term
 	id       int
 	callRes    map[string]Val
+	curBlock   *ssa.BasicBlock
+	scopeBlk   *ssa.BasicBlock
 	bytesCache map[string]Term
 	boundNow   map[string]bool
 	retReach []Term
